@@ -17,6 +17,7 @@ import (
 type gen struct {
 	corpus   map[string][]byte
 	rng      *mrand.Rand
+	rngX     *mrand.Rand // second stream: dimensions added later draw from it, so that the inputs of the older ones stay what they were
 	thorough bool
 	seq      int
 }
@@ -146,13 +147,17 @@ func (g *gen) sweepWith(list *[]inputSpec, kind, base string, quick int, meta ma
 }
 
 func (g *gen) flips(list *[]inputSpec, kind, base string, n int, meta map[string]string) {
+	g.flipsFrom(g.rng, list, kind, base, n, meta)
+}
+
+func (g *gen) flipsFrom(rng *mrand.Rand, list *[]inputSpec, kind, base string, n int, meta map[string]string) {
 	data := g.corpus[base]
 	m := map[string]string{"sentinel": "1"}
 	for k, v := range meta {
 		m[k] = v
 	}
 	for i := 0; i < n; i++ {
-		off, bit := g.rng.IntN(len(data)), g.rng.IntN(8)
+		off, bit := rng.IntN(len(data)), rng.IntN(8)
 		g.add(list, inputSpec{Kind: kind, Class: "bitflip", Name: fmt.Sprintf("flip(%s)@%d.%d", base, off, bit), Base: base, Op: "flip", Off: off, Bit: bit, Meta: m})
 	}
 }
@@ -302,11 +307,22 @@ func (g *gen) keyStoreLane(kind string, bases []string, withInvalid bool) []inpu
 	for _, ri := range g.invalidKeyStores() {
 		g.add(&list, inputSpec{Kind: kind, Class: ri.class, Name: ri.name, Data: ri.data, Meta: map[string]string{"sentinel": "1"}})
 	}
+	// certificate pools that are graphs (cross certificates, re-keyed CAs, repeated and unrelated certificates)
+	for _, ri := range g.certGraphStores() {
+		g.add(&list, inputSpec{Kind: kind, Class: ri.class, Name: ri.name, Data: ri.data, Meta: map[string]string{"sentinel": "1"}})
+	}
+	// password protected entries: what the file says about key derivation and cipher
+	encrypted, stuck := g.encryptedKeyStores()
+	for _, ri := range encrypted {
+		g.add(&list, inputSpec{Kind: kind, Class: ri.class, Name: ri.name, Data: ri.data, Meta: map[string]string{"sentinel": "1"}})
+	}
+	g.flipsFrom(g.rngX, &list, kind, g.encryptedBase(), g.pick(6, 60), nil)
 	// the notification mechanism reports an error; a further valid change (and its sentinel) must still be picked up
 	for _, we := range []string{"event-overflow", "read-error"} {
 		g.add(&list, inputSpec{Kind: kind, Class: "watcher-error", Name: "watcher-error(" + we + ")-then-valid-change", Base: "CK:ec_prime256v1",
 			Meta: map[string]string{"mode": "watcher-error", "error": we, "sentinel": "1"}})
 	}
 	g.add(&list, inputSpec{Kind: kind, Class: "remove-recreate", Name: "removed-and-recreated", Data: cat(certPEM(selfSigned("ec_prime256v1", "rr0")), keyPEM("ec_prime256v1", "rr0")), Meta: map[string]string{"mode": "remove-recreate"}})
+	g.add(&list, inputSpec{Kind: kind, Class: stuck.class, Name: stuck.name, Data: stuck.data, Meta: map[string]string{"sentinel": "1"}})
 	return list
 }
